@@ -190,6 +190,10 @@ func RInv(p *parser, top []any) bool {
 //@   ensures[shrinks] err == nil ==> len(p.stack) < len(old(p.stack))
 //@   loop 0: invariant RInv(p, top) && p.lex == old(p.lex) && p.defaultField == old(p.defaultField)
 //@   loop 0: invariant len(p.stack)+len(top) <= len(old(p.stack))
+//@   ghost stack0 before "top := []any{}": p.stack
+//@   loop 0: invariant[popped-suffix] len(p.stack)+len(top) == len(stack0) && reduce.SamePrefix(p.stack, stack0, len(p.stack))
+//@   ghost top0 before "top, p.nonTerminals, reduced = reduce.Reduce(": top
+//@   assert exactly-the-popped-suffix-is-replaced before "return nil": len(stack0) == len(p.stack)-len(top)+len(top0) && reduce.SamePrefix(p.stack, stack0, len(p.stack)-len(top))
 //@   loop 0: decreases len(p.stack)
 //@   lemma pop before "p.stack = p.stack[:len(p.stack)-1]": reduce.LemmaNTokPrefix(p.stack[:len(p.stack)-1], p.stack, len(p.stack)-1)
 //@   lemma prepend before "top = append([]any{s}, top...)": reduce.LemmaNTokConcat(append([]any{s}, top...), []any{s}, top, len(top)); reduce.LemmaNTokBounds(p.stack, len(p.stack))
